@@ -1939,6 +1939,86 @@ class _Absent:
         return self.memo[k]
 
 
+def _pure_row_item(e):
+    if isinstance(e, (ast.Constant, ast.Name)):
+        return True
+    if isinstance(e, ast.Attribute):
+        return _pure_row_item(e.value)
+    if isinstance(e, (ast.Tuple, ast.List)):
+        return all(_pure_row_item(x) for x in e.elts)
+    return False
+
+
+def written_out(ck, cls, m, me):
+    """A view of method `m` in which (a) a loop over a literal display of rows made of names / attribute chains / constants is
+    written out row by row (no break / continue / else, the loop variables are not assigned in the body) and (b) a call of a
+    method of the class whose body is a single `return <expression>` stands as that expression with the arguments put in.
+    Both say the same thing as the original; rules that follow where keys come from then see the fields themselves."""
+    from ..loader import FuncInfo
+    node = copy.deepcopy(m.node)
+    changed = [False]
+
+    def stored_names(stmts):
+        return {n.id for st in stmts for n in ast.walk(st) if isinstance(n, ast.Name) and isinstance(n.ctx, (ast.Store, ast.Del))}
+
+    def unroll(stmts):
+        out = []
+        for st in stmts:
+            for fld in ("body", "orelse", "finalbody"):
+                if isinstance(getattr(st, fld, None), list) and getattr(st, fld) and isinstance(getattr(st, fld)[0], ast.stmt):
+                    setattr(st, fld, unroll(getattr(st, fld)))
+            for h in getattr(st, "handlers", []) or []:
+                h.body = unroll(h.body)
+            if isinstance(st, ast.For) and not st.orelse and isinstance(st.iter, (ast.Tuple, ast.List)) and 0 < len(st.iter.elts) <= 8 \
+                    and all(_pure_row_item(r) for r in st.iter.elts) \
+                    and not any(isinstance(n, (ast.Break, ast.Continue, ast.Yield, ast.YieldFrom)) for b in st.body for n in ast.walk(b)):
+                from .ladders import bind_target
+                envs = [bind_target(st.target, r) for r in st.iter.elts]
+                tnames = {n.id for n in ast.walk(st.target) if isinstance(n, ast.Name)}
+                if all(e is not None for e in envs) and not (tnames & stored_names(st.body)):
+                    for env in envs:
+                        for b in st.body:
+                            out.append(ast.copy_location(subst(b, env), b))
+                    changed[0] = True
+                    continue
+            out.append(st)
+        return out
+
+    node.body = unroll(node.body)
+
+    class Inl(ast.NodeTransformer):
+        def visit_Call(self, n):
+            self.generic_visit(n)
+            callee, off = _own_method(ck.repo, cls, n, me)
+            if callee is None or callee.qual == m.qual or n.keywords or any(isinstance(a, ast.Starred) for a in n.args):
+                return n
+            a = callee.node.args
+            body = [st for st in callee.node.body if not (isinstance(st, ast.Expr) and isinstance(st.value, ast.Constant))]
+            if len(body) != 1 or not isinstance(body[0], ast.Return) or body[0].value is None or a.vararg or a.kwarg or a.kwonlyargs:
+                return n
+            if callee.node.decorator_list and not callee.is_static and not callee.is_classmethod:
+                return n
+            params = callee.params[off:]
+            if len(params) != len(n.args):
+                return n
+            expr = body[0].value
+            bound = {x.id for x in ast.walk(expr) if isinstance(x, ast.Name) and isinstance(x.ctx, ast.Store)}
+            free_in_args = {x.id for a_ in n.args for x in ast.walk(a_) if isinstance(x, ast.Name)}
+            if bound & (free_in_args | set(params)):
+                return n
+            env = dict(zip(params, n.args))
+            if off and callee.params and callee.params[0] != me:
+                env[callee.params[0]] = ast.Name(id=me, ctx=ast.Load())
+            changed[0] = True
+            return ast.copy_location(subst(expr, env), n)
+
+    node = Inl().visit(node)
+    if not changed[0]:
+        return m
+    ast.fix_missing_locations(node)
+    return FuncInfo(m.module, node, m.qual, cls=m.cls, parent=m.parent)
+
+
 def _forget_function_covers_slots(ck, R, cls, slots, dec):
     """forget_function: for every slot the queries answer from, the keys taken out of the slot are the slot's OWN keys of the function.
     A removal event of slot S is `self.S.pop(k) / del self.S[k]` or a method of the class that (by `_Absent`) leaves S without its
@@ -1950,9 +2030,10 @@ def _forget_function_covers_slots(ck, R, cls, slots, dec):
     m = cls.methods.get("forget_function")
     ck.need(m is not None, "MemoryCache.forget_function not found")
     cm = CacheModel(ck)
-    fa = FA(ck, m)
     me = m.params[0] if (m.params and not m.is_static) else "self"
     ck.need(me == "self", "MemoryCache.forget_function: receiver is not called self")
+    m = written_out(ck, cls, m, me)
+    fa = FA(ck, m)
     state = {x for x in (cm.map, cm.queue, cm.refs, cm.counter, cm.budget) if x}
     for slot in sorted(slots):
         events = []     # (key expression, site)
@@ -1994,7 +2075,26 @@ def _forget_function_covers_slots(ck, R, cls, slots, dec):
                                 sc.filters.append((cnd, i, set(env)))
                     q = fa.pm.get(q)
                 sc.trace(k, i, env)
-                sc.path_filters(i, k)
+            # the branch conditions under which the removal is reached (a DNF): the removal is narrowed by another slot only when
+            # EVERY way of reaching it passes a test on that slot (`if not ref_list and not evict_list: return` leaves the way
+            # "there is something selected from this slot" open)
+            path_narrow = None
+            for i in ids:
+                per_conj = []
+                for conj in (fa.conditions(i) or [frozenset()]):
+                    hit = None
+                    for (t_, p_) in conj:
+                        try:
+                            e_ = _parse(t_)
+                        except SyntaxError:
+                            continue
+                        o_ = sorted({self_attr(x) for x in ast.walk(e_) if self_attr(x) in slots and self_attr(x) != slot})
+                        if o_:
+                            hit = (t_, o_[0])
+                            break
+                    per_conj.append(hit)
+                if per_conj and all(h is not None for h in per_conj):
+                    path_narrow = per_conj[0]
             index = sorted(f for f in sc.fields if f not in state and f not in slots)
             if slot not in sc.fields and not index:
                 src = ", ".join("self." + f for f in sorted(sc.fields)) or ("`%s`" % A.short(sc.other[0], 40) if sc.other and sc.other[0] is not None else "something else")
@@ -2015,6 +2115,7 @@ def _forget_function_covers_slots(ck, R, cls, slots, dec):
                 if others:
                     narrowed = (c0 if isinstance(c0, str) else A.short(c0, 50), sorted(others)[0])
                     break
+            narrowed = narrowed or path_narrow
             if narrowed:
                 why_not = why_not or (site, "whether a key is removed from self.%s depends on self.%s (`%s`): an entry that only self.%s holds survives"
                                             % (slot, narrowed[1], narrowed[0], slot))
@@ -2030,7 +2131,35 @@ def _forget_function_covers_slots(ck, R, cls, slots, dec):
                     top = q
                 q = fa.pm.get(q)
             covering += fa.nodes(top if top is not site else (fa.stmt_of(site) or site))
-        ok = bool(covering) and fa.cfg.must_pass(covering, fa.cfg.exit)
+        def selected_from_slot(txt, pol, slot=slot, at=(covering or [fa.cfg.entry])[0]):
+            """the branch literal says: the collection of this slot's keys selected for the function is empty (nothing to sweep)"""
+            try:
+                e = _parse(txt)
+            except SyntaxError:
+                return False
+            if isinstance(e, ast.Compare) and len(e.ops) == 1 and isinstance(e.comparators[0], ast.Constant) and e.comparators[0].value == 0 \
+                    and e.comparators[0].value is not False:
+                if (isinstance(e.ops[0], ast.Eq) and pol) or (isinstance(e.ops[0], ast.Gt) and not pol):
+                    e, pol = e.left, False
+                else:
+                    return False
+            if pol:
+                return False
+            if isinstance(e, ast.Call) and isinstance(e.func, ast.Name) and e.func.id == "len" and len(e.args) == 1:
+                e = e.args[0]
+            sc = ForgetScope(fa, cm)
+            sc.trace(copy.deepcopy(e), at)
+            if slot not in sc.fields and not [f for f in sc.fields if f not in state and f not in slots]:
+                return False
+            for flt in sc.filters:
+                c0 = flt[0]
+                if isinstance(c0, ast.AST) and any(self_attr(x) in slots and self_attr(x) != slot for x in ast.walk(c0)):
+                    return False
+            return not sc.partial
+
+        from .cache_model import branch_filter
+        edge_ok = branch_filter(fa, selected_from_slot)
+        ok = bool(covering) and fa.cfg.must_pass(covering, fa.cfg.exit, edge_ok=edge_ok)
         origin = slots[slot][0]
         if ok:
             msg = "forget_function sweeps self.%s (from which %s answers) over its own keys of the function on every path" % (slot, origin)
@@ -2041,7 +2170,7 @@ def _forget_function_covers_slots(ck, R, cls, slots, dec):
             elif not events:
                 detail, at = "it removes nothing from self.%s" % slot, fa.where()
             else:
-                wit = fa.cfg.path(fa.cfg.entry, fa.cfg.exit, removed=covering)
+                wit = fa.cfg.path(fa.cfg.entry, fa.cfg.exit, removed=covering, edge_ok=edge_ok)
                 detail, at = "it can return (path %s) without sweeping self.%s" % (fa.cfg.describe_path(wit) if wit else "?", slot), fa.where()
             msg = ("forget_function leaves entries of the forgotten function in self.%s, from which %s answers: %s. After forget_all() the cache still "
                    "reports such a call as memoized (the re-computed result is then never stored and the body runs on every later call) or serves the "
@@ -2708,7 +2837,25 @@ def check_exception_name_roundtrip(ck, R):
         def groups_reaching(exprs):
             """the groups whose text flows into one of these expressions (a group is designated by its number / name)"""
             out = set()
+
+            def unpacked(x, at_, depth=0):
+                """`language, module, name = m.groups()`: the i-th name stands for group i+1"""
+                if depth > 6:
+                    return
+                for nm_ in [y for y in ast.walk(x) if isinstance(y, ast.Name) and isinstance(y.ctx, ast.Load) and tx.df.is_local(y.id)]:
+                    for d in tx.df.reaching(at_, nm_.id):
+                        st_ = getattr(d, "stmt", None)
+                        if d.kind == "unpack" and isinstance(st_, ast.Assign) and isinstance(st_.value, ast.Call) and A.call_attr(st_.value) == "groups":
+                            for t in st_.targets:
+                                if isinstance(t, (ast.Tuple, ast.List)):
+                                    for i_, el in enumerate(t.elts):
+                                        if isinstance(el, ast.Name) and el.id == nm_.id and (i_ + 1) in read:
+                                            out.add(i_ + 1)
+                        elif d.value is not None and d.node is not None and d.node >= 0 and d.kind in ("assign", "for", "aug"):
+                            unpacked(d.value, d.node, depth + 1)
+
             for (x, at_) in exprs:
+                unpacked(x, at_)
                 try:
                     ds = tx.deps(x, at_)
                 except AnalysisError:
